@@ -69,7 +69,23 @@ let cmd_reread r =
   let c = !st.st_core in
   pr_opt pr_core (reread_ext (core_init g s sl e) c)
 
+(* labels.readonto <header> opsA opsB  ->  read_ext onto the (non-fresh) core reached by opsA of the extension
+   part of the file written from the core reached by opsB *)
+let cmd_readonto r =
+  let cache_on = rd_bool r in let abs_fix = rd_bool r in
+  let g = rd_qc r in let s = rd_qc r in let sl = rd_qc r in let e = rd_qc r in
+  let run ops =
+    let st = ref { st_core = core_init g s sl e; st_cache = [] } in
+    List.iter (fun o -> let (st', _) = seq_step cache_on abs_fix !st o in st := st') ops;
+    !st.st_core in
+  let opsa = rd_list rd_op r in
+  let opsb = rd_list rd_op r in
+  let ca = run opsa in
+  let cb = run opsb in
+  pr_opt pr_core (read_ext ca (snd (write_ext cb)))
+
 let () =
+  Driver.register "labels.readonto" cmd_readonto;
   Driver.register "labels.reread" cmd_reread;
   Driver.register "labels.eval" cmd_eval;
   Driver.register "labels.store" cmd_store
